@@ -232,25 +232,37 @@ pub fn eval_fpo(allocates_base_pointer: bool, sz: Sizes, env: &dyn WinEnv) -> Wi
     let Some(fs) = frame_size(sz, gcps) else { return WinExpect::Fail("frame-size-overflow") };
     let Some(esp) = env.callee_reg("esp") else { return WinExpect::Fail("callee-esp-unknown") };
     // $eip := *($esp + frame_size)
+    //
+    // The documentation gives the FPO formulae as plain sums (wrapping arithmetic is stated for
+    // the operators of program strings only), $esp is the address of a 32-bit machine and the
+    // property demands that extreme size fields fail cleanly. So when the size fields push
+    // `$esp + frame_size` — computed WITHOUT wrapping — to or past 2^32 there is no such
+    // address, nothing can be read from it and the record cannot be applied: a clean failure.
+    // Reading the word at `($esp + frame_size) mod 2^32` instead (typically BELOW the callee's
+    // own $esp) is not a reading of the documented formula.
     let mut eip_addr = esp + fs as u64;
-    if eip_addr + 4 > FOUR_GIB {
-        return WinExpect::Open("return-slot-past-4GiB");
+    if eip_addr >= FOUR_GIB {
+        return WinExpect::Fail("return-slot-past-4GiB");
     }
+    // (a slot that starts below 2^32 but does not end there is a matter of the memory model)
     let Some(mut eip) = env.mem(eip_addr) else { return WinExpect::Fail("return-slot-unreadable") };
     if !env.has_grand_callee() {
         let Some(callee_eip) = env.callee_reg("eip") else { return WinExpect::Open("callee-eip-unknown") };
         if eip as u64 == callee_eip {
             eip_addr += 4;
-            if eip_addr + 4 > FOUR_GIB {
-                return WinExpect::Open("return-slot-past-4GiB");
+            if eip_addr >= FOUR_GIB {
+                // "one word further": only named in a prose comment, not a sum of size fields;
+                // nothing says what the word after the last word of the address space is
+                return WinExpect::Open("leftover-skip-past-4GiB");
             }
             let Some(e) = env.mem(eip_addr) else { return WinExpect::Fail("return-slot-unreadable") };
             eip = e;
         }
     }
     if eip_addr + 4 >= FOUR_GIB {
-        // the caller's esp does not fit 32 bits: wrap or fail is not documented
-        return WinExpect::Open("caller-esp-past-4GiB");
+        // the return address is the LAST word of the address space (readable), the caller's
+        // $esp = 2^32 does not fit the register: failing or wrapping to 0 is not documented
+        return WinExpect::Open("caller-esp-equals-4GiB");
     }
     let mut regs: BTreeMap<&'static str, Option<u32>> = BTreeMap::new();
     let mut or_none = None;
@@ -260,8 +272,10 @@ pub fn eval_fpo(allocates_base_pointer: bool, sz: Sizes, env: &dyn WinEnv) -> Wi
         if a < 0 {
             return WinExpect::Fail("ebp-slot-below-zero");
         }
-        if a as u64 + 4 > FOUR_GIB {
-            return WinExpect::Open("ebp-slot-past-4GiB");
+        if a as u64 >= FOUR_GIB {
+            // same reading as for the return slot (cannot be reached: this address lies at
+            // least 8 below `$esp + frame_size`, which is below 2^32 here)
+            return WinExpect::Fail("ebp-slot-past-4GiB");
         }
         let Some(b) = env.mem(a as u64) else { return WinExpect::Fail("ebp-slot-unreadable") };
         regs.insert("ebp", Some(b));
